@@ -37,10 +37,13 @@ LEVEL = 'exploration'
 RULE = ("Tape sessions of 1-4 files; types D (data via PRINT#;), A/B/P (program saved ,A / plain / "
         ",P), M (BSAVE of a video-memory block); content lengths 0..1100 with emphasis on "
         "k*255-2..k*255+2, k*256-1..k*256+1, 254/255/256, 164/165 (count byte 0xA5) and 0/1; "
+        "every type x key length (0 = empty body incl. BSAVE of 0 bytes and SAVE after NEW, 1, 254, "
+        "255, 256, 510, 511) x tape position first/middle/last enumerated on CAS and WAV; "
         "contents printable / all byte values / constant 0xFF, 0x00, 0xA5, 0x16 runs; names 1-8 "
         "characters (also equal names on files of different type); CAS and (small) WAV images; "
         "writer session closed, reader session reads an increasing selection by name or by "
-        "'next file'. Non-trivial: at least 2 files on the tape and some content length within 2 "
+        "'next file', only the last file (all others skipped), or every file by name in shuffled "
+        "order with the tape reopened before each read. Non-trivial: at least 2 files on the tape and some content length within 2 "
         "of a multiple of 255 or 256, or 0. Distinct = distinct session.")
 ASSUMPTIONS = [
     "files are read in tape order (a name that lies behind the tape position is found only after "
@@ -63,6 +66,7 @@ TECHNIQUE = ("Hypothesis tape sessions, write/close/reopen/read round trip again
 TYPES = ['D', 'A', 'B', 'P', 'M']
 MEM_OFF = 4096          # B800:1000 - text page 1
 MAXLEN = 1100
+KEY_LENGTHS = (0, 1, 254, 255, 256, 510, 511)
 
 
 # --------------------------------------------------------------------------------------------
@@ -234,6 +238,9 @@ def build_program(s, target, seed):
     (exactly, when target >= 12). Returns the bytecode image.
     """
     s.execute(b'NEW')
+    if target <= 0:
+        # the empty program: SAVE after NEW
+        return s.impl.program.bytecode.getvalue()
     lines = []
     # each line '<n> REM<payload>' costs 2 (link) + 2 (number) + 2 (":REM" tokens are 1 byte: REM)
     # -> measured instead of assumed: enter, measure, then pad the last line
@@ -309,6 +316,11 @@ def _fail_outcome(res, o, what):
     if o.kind == 'budget':
         res.inconclusive = True
         return True
+    if o.kind == 'escaped' and o.exc == 'CaseTimeout':
+        # the runner's per-case wall limit fired inside the interpreter: inconclusive
+        res.inconclusive = True
+        res.label('case-wall-limit')
+        return True
     if o.kind == 'escaped':
         res.fail('escaped.%s@%s' % (o.exc, o.frame), '%s -> %r\n%s' % (what, o, o.tb))
         return True
@@ -339,6 +351,12 @@ def _check(case, res, sb):
             nm = b'CAS1:' + f['name']
             s.set('N$', nm)
             res.label('type:' + t, 'style:' + f['style'])
+            if f['len'] in KEY_LENGTHS:
+                where = ('only' if len(files) == 1 else 'first' if f is files[0] else
+                         'last' if f is files[-1] else 'middle')
+                res.label('keylen:%d:%s' % (f['len'], t), 'keylen-pos:' + where)
+                if f['len'] == 0:
+                    res.label('empty:%s@%s' % (t, where))
             lm = f['len'] % 255
             res.label('len%255:' + ('0' if lm == 0 else '254' if lm == 254 else '1' if lm == 1
                                     else '164-5' if lm in (164, 165) else 'other'))
@@ -420,9 +438,25 @@ def _check(case, res, sb):
     s = harness.Sess(sandbox=sb, budget=60000, video='cga',
                      devices={'Z': sb.z, 'CAS1': spec},
                      hide_protected=True)
+    reopen = bool(case.get('reopen', False))
+    if reopen:
+        res.label('reads:reopen-each')
+    if case.get('reads') and len(reads) == 1 and len(files) > 1 \
+            and reads[0]['i'] % len(files) == len(files) - 1 and not reads[0].get('any'):
+        res.label('reads:last-only')
     try:
         pos = 0
-        for r in reads:
+        for rn, r in enumerate(reads):
+            if reopen and rn:
+                # a fresh reader session: the tape starts again at its beginning, so files can be
+                # asked for in any order
+                c = s.close()
+                if c is not None:
+                    res.fail('escaped.%s@%s' % (c.exc, c.frame), desc + ' closing a reader')
+                    return
+                s = harness.Sess(sandbox=sb, budget=60000, video='cga',
+                                 devices={'Z': sb.z, 'CAS1': spec}, hide_protected=True)
+                pos = 0
             if pos >= len(files):
                 break
             i = pos + r['i'] % (len(files) - pos)
@@ -627,6 +661,8 @@ STYLES = ['print'] * 4 + ['bytes'] * 4 + ['ff', 'zero', 'a5', 'sync']
 
 def rand_length(rng):
     r = rng.random()
+    if r < 0.2:
+        return rng.choice(KEY_LENGTHS)
     if r < 0.5:
         return rng.choice(EDGE_LENGTHS)
     if r < 0.75:
@@ -646,7 +682,7 @@ def rand_name(rng):
 def rand_file(rng):
     t = rng.choice(TYPES)
     ln = rand_length(rng)
-    return {'name': rand_name(rng), 'type': t, 'len': ln if t != 'M' else max(1, ln),
+    return {'name': rand_name(rng), 'type': t, 'len': ln,
             'style': rng.choice(STYLES) if t in ('D', 'M') else 'print',
             'seed': rng.randint(0, 999), 'lines': t == 'D' and rng.random() < 0.33}
 
@@ -680,9 +716,17 @@ def rand_tape(rng, fmt='cas', maxfiles=4, maxlen=MAXLEN):
         files[0] = dict(files[0], name=files[1]['name'] + 'X')
     files = _dedupe(files)
     case = {'fmt': fmt, 'files': files, 'tail': rng.random() < 0.25}
-    if rng.random() < 0.5:
+    mode = rng.random()
+    if mode < 0.35:
         case['reads'] = [{'i': rng.randint(0, 3), 'any': rng.random() < 0.25}
                          for _ in range(rng.randint(1, 4))]
+    elif mode < 0.5:
+        case['reads'] = [{'i': n - 1}]                  # search for the last file: skip all others
+    elif mode < 0.7:
+        order = list(range(n))
+        rng.shuffle(order)
+        case['reads'] = [{'i': k} for k in order]       # every file by name, any order,
+        case['reopen'] = True                           # tape reopened before each
     return case
 
 
@@ -690,7 +734,7 @@ def strat_tape(fmt='cas', maxfiles=4, maxlen=MAXLEN):
     return st.randoms(use_true_random=False).map(lambda rng: rand_tape(rng, fmt, maxfiles, maxlen))
 
 
-RAND_COUNTS = {'cas': {'quick': 60, 'thorough': 3000}, 'wav': {'quick': 12, 'thorough': 150}}
+RAND_COUNTS = {'cas': {'quick': 45, 'thorough': 3000}, 'wav': {'quick': 12, 'thorough': 150}}
 
 
 def _gen_rand(fmt, maxfiles, maxlen):
@@ -711,8 +755,6 @@ def gen_edges(shard, nshards, tier, seed):
         edge = list(range(0, 1100))
     for t in TYPES:
         for ln in edge:
-            if t == 'M' and ln == 0:
-                continue
             for follow in (('D', 10), ('B', 40)):
                 cases.append({'fmt': 'cas', 'tail': False, 'files': [
                     {'name': 'FIRST', 'type': t, 'len': ln, 'style': 'bytes', 'seed': ln},
@@ -721,11 +763,17 @@ def gen_edges(shard, nshards, tier, seed):
     # reading only the second file: the first is skipped
     for t in TYPES:
         for ln in edge[:16]:
-            if t == 'M' and ln == 0:
-                continue
             cases.append({'fmt': 'cas', 'tail': True, 'reads': [{'i': 1}], 'files': [
                 {'name': 'FIRST', 'type': t, 'len': ln, 'style': 'a5', 'seed': ln},
                 {'name': 'SECOND', 'type': 'D', 'len': 20, 'style': 'print', 'seed': 2}]})
+    # same name on files of different type: LOAD must pass the data file, OPEN the program;
+    # 'next file' reads must pass files of the wrong type; a missing name then rewinds the tape
+    for t0, t1 in (('D', 'B'), ('B', 'D'), ('M', 'A'), ('P', 'M'), ('D', 'M'), ('A', 'D')):
+        two = [{'name': 'SAME', 'type': t0, 'len': 20, 'style': 'print', 'seed': 3},
+               {'name': 'SAME', 'type': t1, 'len': 33, 'style': 'print', 'seed': 4}]
+        cases.append({'fmt': 'cas', 'tail': True, 'reads': [{'i': 1}], 'files': two})
+        cases.append({'fmt': 'cas', 'tail': False, 'reads': [{'i': 1, 'any': True}], 'files': two})
+        cases.append({'fmt': 'cas', 'tail': True, 'reads': [{'i': 0}], 'files': two})
     # names that are prefixes / extensions of each other: the search must match the whole name
     for t in TYPES:
         for n0, n1 in (('ABCX', 'ABC'), ('ABC', 'ABCX'), ('A', 'AB'), ('AB', 'A'),
@@ -736,8 +784,49 @@ def gen_edges(shard, nshards, tier, seed):
     return iter(cases[shard::nshards])
 
 
+def gen_positions(shard, nshards, tier, seed):
+    """
+    Every file type x every key length (0 = empty body, 1, 254, 255, 256, 510, 511) at the first,
+    middle and last position of a three-file tape, CAS (all) and WAV (subset in quick), read
+    (a) in tape order, (b) only the last file (all others skipped), (c) every file by name in a
+    shuffled order with the tape reopened before each read.
+    """
+    import random
+    rng = random.Random(20290)          # fixed: this is an enumeration, not a sample
+    others = [('D', 7), ('B', 25), ('M', 12), ('A', 30), ('P', 18), ('M', 0), ('D', 0)]
+    cases = []
+    k = 0
+    for fmt in ('cas', 'wav'):
+        for t in TYPES:
+            for ln in KEY_LENGTHS:
+                for posn in (0, 1, 2):
+                    if fmt == 'wav' and tier == 'quick' and not (
+                            ln in (0, 1, 255) and t in ('M', 'D', 'B')):
+                        continue
+                    files = []
+                    for j in range(3):
+                        if j == posn:
+                            files.append({'name': 'KEY%d' % j, 'type': t, 'len': ln,
+                                          'style': 'bytes', 'seed': ln + j})
+                        else:
+                            ot, ol = others[(k + j) % len(others)]
+                            files.append({'name': 'F%d' % j, 'type': ot, 'len': ol,
+                                          'style': 'print', 'seed': k + j})
+                    k += 1
+                    order = [0, 1, 2]
+                    rng.shuffle(order)
+                    modes = [{}, {'reads': [{'i': 2}]},
+                             {'reads': [{'i': x} for x in order], 'reopen': True}]
+                    if fmt == 'wav':
+                        modes = [modes[k % 3]]
+                    for md in modes:
+                        cases.append(dict({'fmt': fmt, 'tail': False, 'files': files}, **md))
+    return iter(cases[shard::nshards])
+
+
 def units(tier):
     return [
+        Unit('positions', 'enum', shards=16, gen=gen_positions),
         Unit('edges-cas', 'enum', shards={'quick': 8, 'thorough': 16}, gen=gen_edges),
         Unit('tapes-cas-rand', 'enum', shards=16, gen=_gen_rand('cas', 4, MAXLEN)),
         Unit('tapes-wav-rand', 'enum', shards={'quick': 4, 'thorough': 16},
@@ -750,6 +839,15 @@ def units(tier):
 
 
 REGRESSIONS = [
+    # seeded change (wave 4): an empty BSAVE image lost its (empty) data record, so the file
+    # after it could not be found
+    {'fmt': 'cas', 'tail': False, 'reads': [{'i': 1}], 'files': [
+        {'name': 'M0', 'type': 'M', 'len': 0, 'style': 'bytes', 'seed': 0},
+        {'name': 'NEXT', 'type': 'D', 'len': 5, 'style': 'print', 'seed': 2}]},
+    {'fmt': 'wav', 'tail': False, 'files': [
+        {'name': 'A', 'type': 'D', 'len': 3, 'style': 'print', 'seed': 1},
+        {'name': 'M0', 'type': 'M', 'len': 0, 'style': 'bytes', 'seed': 0},
+        {'name': 'NEXT', 'type': 'B', 'len': 0, 'style': 'print', 'seed': 2}]},
     # fixed ab228b4a (skip.body-not-skipped): closing record with count byte 0xA5 taken for a header
     {'fmt': 'cas', 'tail': False, 'reads': [{'i': 1}], 'files': [
         {'name': 'FIRST', 'type': 'D', 'len': 164, 'style': 'print', 'seed': 1},
@@ -792,6 +890,11 @@ KILLS = [
     "cassette.py write_trailer: no trailer -> image.undecodable, read.* (CAS); survives on WAV "
     "(the pause between records makes the trailer redundant there)",
     "cassette.py WAVBitStream: 1-bit half pulse 500 -> 330 us -> read.not-found (WAV unit)",
+    "wave-4 seed: _close_record_buffer writes no (empty) data record for a zero-length BSAVE "
+    "image -> image.undecodable, read.messages, read.not-found (positions unit / regression)",
+    "cassette.py _search: is_open not reset at end of tape (revert of ab228b4a) -> "
+    "timeout.tape-stays-open; body of skipped files not read past (revert) -> "
+    "skip.body-not-skipped, read.not-found",
     "SURVIVES: cassette.py _read_block CRC comparison skipped on read - needs a corrupted tape, "
     "which the property does not speak about",
     "SURVIVES: WAVBitStream.write_pause writing no pause - tapes still read back",
